@@ -448,3 +448,45 @@ Proof.
   intros Hcfg Hor. destruct (http_noninterference_a cfg allow h c Hcfg Hor) as [Horf Hp].
   rewrite (hresponses_agree k cfg allow h Hcfg Hor), (hresponses_agree k cfg allow _ Hcfg Horf). exact Hp.
 Qed.
+
+(* ---- C16 at the level of whole histories: the allow-list is invisible to listed clients ----
+   For ANY backend, ANY store and ANY HTTP history (no freshness assumption needed: this is an equality
+   of programs): the responses to the requests that carry a listed client id (or no usable id at all)
+   are exactly the responses a server WITHOUT a list gives when the requests of unlisted clients are
+   never sent — and those unlisted requests touch nothing. *)
+Definition hlisted (allow : option (list id)) (re : hreq * env) : bool :=
+  match rq_cid (fst re) with COk c => listed allow c | _ => true end.
+Fixpoint hsel (f : hreq * env -> bool) (h : list (hreq * env)) (rs : list hresp) : list hresp :=
+  match h, rs with
+  | re :: h', r :: rs' => if f re then r :: hsel f h' rs' else hsel f h' rs'
+  | _, _ => []
+  end.
+
+Lemma unlisted_step_state B cfg allow s rq E c : rq_cid rq = COk c -> listed allow c = false ->
+  snd (fst (http_step B cfg allow s (rq, E))) = s.
+Proof.
+  intros Hc Hl. destruct (unlisted_never_reaches_storage B cfg allow s rq E c Hc Hl) as (st & [[_ Hs]|[Hm Hp]]).
+  - rewrite Hs. reflexivity.
+  - rewrite http_step_route. unfold route. rewrite Hm, Hp. reflexivity.
+Qed.
+
+Theorem allow_list_transparent B cfg allow h : forall s,
+  hsel (hlisted allow) h (fst (hrun B cfg allow s h)) = fst (hrun B cfg None s (filter (hlisted allow) h)) /\
+  snd (hrun B cfg allow s h) = snd (hrun B cfg None s (filter (hlisted allow) h)).
+Proof.
+  induction h as [|[rq E] h IH]; intros s; [split; reflexivity|].
+  cbn [filter hrun]. destruct (hlisted allow (rq, E)) eqn:Hk.
+  - assert (Hh : http_handler cfg allow rq = http_handler cfg None rq).
+    { apply listed_transparent. intros c Hc. unfold hlisted in Hk. cbn [fst] in Hk. rewrite Hc in Hk. exact Hk. }
+    cbn [hrun]. unfold http_step. cbn [fst snd]. rewrite Hh.
+    destruct (run_hprog B E (http_handler cfg None rq) s) as [[r s1] t].
+    destruct (IH s1) as [IH1 IH2].
+    destruct (hrun B cfg allow s1 h) as [l s2]. destruct (hrun B cfg None s1 (filter (hlisted allow) h)) as [l' s2'].
+    cbn [fst snd hsel] in *. rewrite Hk. split; [f_equal; exact IH1|exact IH2].
+  - unfold hlisted in Hk. cbn [fst] in Hk. destruct (rq_cid rq) as [| | |c] eqn:Hc; try discriminate.
+    pose proof (unlisted_step_state B cfg allow s rq E c Hc Hk) as Hs.
+    destruct (http_step B cfg allow s (rq, E)) as [[r s1] t]. cbn [fst snd] in Hs. subst s1.
+    destruct (IH s) as [IH1 IH2].
+    destruct (hrun B cfg allow s h) as [l s2]. cbn [fst snd hsel] in *.
+    unfold hlisted at 1. cbn [fst]. rewrite Hc, Hk. split; [exact IH1|exact IH2].
+Qed.
